@@ -95,11 +95,11 @@ def extract(tree):
     _need(re.search(r"if\s*\(\s*tx\s*!=\s*ty\s*\)\s*return\s+tx\s*<\s*ty\s*\?\s*-1\s*:\s*1\s*;", b), "janet_compare cross-type rule")
     # ---- symcache.c: the two constants written into vacated slots, thresholds
     sym = csrc.strip_comments(csrc.read(tree, "src/core/symcache.c"))
-    b = csrc.func_body(sym, "janet_symcache_findmem")
-    _need(re.search(r"index\s*=\s*\(uint32_t\)\s*hash\s*&\s*\(janet_vm\.cache_capacity\s*-\s*1\)\s*;", b), "findmem home index")
-    _need(re.search(r"if\s*\(\s*NULL\s*==\s*test\s*\)\s*\{\s*if\s*\(\s*NULL\s*==\s*firstEmpty\s*\)\s*firstEmpty\s*=\s*janet_vm\.cache\s*\+\s*i\s*;\s*goto\s+notfound\s*;", b), "findmem empty-slot branch")
-    _need(re.search(r"if\s*\(\s*JANET_SYMCACHE_DELETED\s*==\s*test\s*\)\s*\{\s*if\s*\(\s*firstEmpty\s*==\s*NULL\s*\)\s*firstEmpty\s*=\s*janet_vm\.cache\s*\+\s*i\s*;\s*continue\s*;", b), "findmem tombstone branch")
-    m = _need(re.search(r"if\s*\(\s*firstEmpty\s*!=\s*NULL\s*\)\s*\{\s*\*firstEmpty\s*=\s*test\s*;\s*janet_vm\.cache\[i\]\s*=\s*(\w+)\s*;\s*return\s+firstEmpty\s*;\s*\}\s*return\s+janet_vm\.cache\s*\+\s*i\s*;", b),
+    b = _findmem_by_role(sym)
+    _need(re.search(r"index=\(uint32_t\)hash&\(janet_vm\.cache_capacity-1\);", b), "findmem home index")
+    _need(re.search(r"if\(NULL==test\)\{?if\(NULL==firstEmpty\)\{?firstEmpty=janet_vm\.cache\+i;\}?gotonotfound;", b), "findmem empty-slot branch")
+    _need(re.search(r"if\(JANET_SYMCACHE_DELETED==test\)\{?if\(NULL==firstEmpty\)\{?firstEmpty=janet_vm\.cache\+i;\}?continue;", b), "findmem tombstone branch")
+    m = _need(re.search(r"if\(NULL!=firstEmpty\)\{\*firstEmpty=test;janet_vm\.cache\[i\]=(\w+);returnfirstEmpty;\}returnjanet_vm\.cache\+i;", b),
               "findmem move-into-first-tombstone branch")
     sc = {}
     if m.group(1) not in ("JANET_SYMCACHE_DELETED", "NULL"):
@@ -129,6 +129,65 @@ def extract(tree):
     sc.update(gensym_facts(sym, csrc.strip_comments(csrc.read(tree, "src/core/state.h"))))
     c["_sym"] = sc
     return c, {k: ty[k] for k in want}
+
+
+def _func_params(src, name):
+    """parameter names of the definition of `name` (comment-stripped source), in order"""
+    for m in re.finditer(r"\b%s\s*\(" % re.escape(name), src):
+        e = _match_paren(src, m.end() - 1)
+        if not re.match(r"\s*\{", src[e:]):
+            continue
+        ls = src.rfind("\n", 0, m.start()) + 1
+        if not re.match(r"^[A-Za-z_][\w\s\*]*$", src[ls:m.start()]):
+            continue
+        out = []
+        for prm in src[m.end():e - 1].split(","):
+            mm = re.search(r"(\w+)\s*(?:\[\s*\w*\s*\])?\s*$", prm.strip())
+            if mm:
+                out.append(mm.group(1))
+        return out
+    raise ExtractError("definition of %s not found" % name)
+
+
+def _rename(text, mapping):
+    """rename identifiers (whole words) simultaneously"""
+    if not mapping:
+        return text
+    rx = re.compile(r"\b(" + "|".join(re.escape(k) for k in mapping) + r")\b")
+    return rx.sub(lambda m: mapping[m.group(1)], text)
+
+
+def _squash(text):
+    """canonical text of a piece of C for shape matching: no whitespace, NULL / constant on the LEFT of == and !=,
+    `!p` never used for pointers here, `&a[i]` written `a+i`, `(void) x;` statements dropped"""
+    t = re.sub(r"\(\s*void\s*\)\s*\w+\s*;", "", text)
+    t = re.sub(r"\s+", "", t)
+    t = re.sub(r"&(janet_vm\.cache)\[(\w+)\]", r"\1+\2", t)
+    t = re.sub(r"\b([A-Za-z_][\w\.\->]*)(==|!=)(NULL|JANET_SYMCACHE_DELETED)\b", r"\3\2\1", t)
+    return t
+
+
+def _findmem_by_role(sym):
+    """body of janet_symcache_findmem with its locals renamed BY ROLE to the names the shape patterns use (hash = third
+    parameter, index = the masked hash, i = the variable that indexes janet_vm.cache, test = the slot content read there,
+    firstEmpty = the `const uint8_t **` local initialised to NULL), squashed: a renamed local, re-wrapped lines, optional braces,
+    `x == NULL` vs `NULL == x`, `&cache[i]` vs `cache + i` make no difference"""
+    b = csrc.func_body(sym, "janet_symcache_findmem")
+    prm = _func_params(sym, "janet_symcache_findmem")
+    if len(prm) != 4:
+        raise ExtractError("janet_symcache_findmem: expected 4 parameters, found %r" % prm)
+    roles = {prm[2]: "hash"}
+    m = _need(re.search(r"(\w+)\s*=\s*\(\s*uint32_t\s*\)\s*%s\s*&\s*\(\s*janet_vm\.cache_capacity\s*-\s*1\s*\)\s*;" % re.escape(prm[2]), b), "findmem home index")
+    roles[m.group(1)] = "index"
+    m = _need(re.search(r"const\s+uint8_t\s*\*\s*(\w+)\s*=\s*janet_vm\.cache\s*\[\s*(\w+)\s*\]\s*;", b), "findmem: read of the slot `janet_vm.cache[i]`")
+    roles[m.group(1)], roles[m.group(2)] = "test", "i"
+    m = _need(re.search(r"const\s+uint8_t\s*\*\*\s*(\w+)\s*=\s*NULL\s*;", b), "findmem: the first-empty-slot local")
+    roles[m.group(1)] = "firstEmpty"
+    if len(set(roles.values())) != len(roles):
+        raise ExtractError("janet_symcache_findmem: roles not distinct: %r" % roles)
+    # a role name used for something else would be captured: rename such bystanders away first
+    clash = {v: v + "_other" for v in roles.values() if v not in roles and re.search(r"\b%s\b" % v, b)}
+    return _squash(_rename(_rename(b, clash), roles))
 
 
 def _loops(body):
@@ -369,4 +428,141 @@ def render(tree):
     for k in ("structPutGuards", "structDupWrites", "tablePutGuards"):
         out.append("abbrev %s : List String := [%s]" % (k, ", ".join('"%s"' % x for x in guards[k])))
     out.append("\nend JanetModel.Gen.Value\n")
+    return "\n".join(out)
+
+
+# ------------------------------------------------------------------------------------------------ abstract values (Gen/ValueAbs.lean)
+def _stmts(body):
+    """top-level statements of a squashed body `{...}` with the braces of single-statement blocks removed"""
+    t = body.strip()
+    if t.startswith("{") and t.endswith("}"):
+        t = t[1:-1]
+    t = t.replace("{", "").replace("}", "")
+    return [x + ";" for x in t.split(";") if x]
+
+
+def compare_abstract_steps(value):
+    """the decisions of janet_compare_abstract in source order, locals renamed by role (a, b = the two parameters; ta, tb = what
+    janet_abstract_type() of each is assigned to)"""
+    b = csrc.func_body(value, "janet_compare_abstract")
+    prm = _func_params(value, "janet_compare_abstract")
+    if len(prm) != 2:
+        raise ExtractError("janet_compare_abstract: expected 2 parameters")
+    roles = {prm[0]: "a", prm[1]: "b"}
+    for who, role in ((prm[0], "ta"), (prm[1], "tb")):
+        m = _need(re.search(r"(\w+)\s*=\s*janet_abstract_type\s*\(\s*%s\s*\)\s*;" % re.escape(who), b), "janet_compare_abstract: type of " + who)
+        roles[m.group(1)] = role
+    t = _squash(_rename(b, roles))
+    forms = [
+        ("sameAddress:0", r"if\((a==b|b==a)\)return0;"),
+        ("typeDiffers:byTypePointer", r"if\((ta!=tb|tb!=ta)\)return(ta>tb\?1:-1|ta<tb\?-1:1|tb<ta\?1:-1);"),
+        ("noCompareHook:byAddress", r"if\((NULL==t[ab]->compare|!t[ab]->compare)\)return(a>b\?1:-1|a<b\?-1:1|b<a\?1:-1);"),
+        ("compareHook", r"returnt[ab]->compare\(a,b\);"),
+    ]
+    steps = []
+    for st in _stmts(t):
+        if re.fullmatch(r"constJanetAbstractType\*t[ab]=janet_abstract_type\([ab]\);", st):
+            continue
+        tag = next((tag for tag, rx in forms if re.fullmatch(rx, st)), None)
+        if tag is None:
+            raise ExtractError("janet_compare_abstract: statement `%s` not recognised" % st)
+        steps.append(tag)
+    return steps
+
+
+def _hook_shape(src, fn, kind):
+    """shape of a compare / hash hook body, locals renamed by role"""
+    if fn == "NULL":
+        return "NULL"
+    b = csrc.func_body(src, fn)
+    prm = _func_params(src, fn)
+    if kind == "compare":
+        if len(prm) != 2:
+            raise ExtractError("%s: expected 2 parameters" % fn)
+        roles, ty = {}, None
+        for who, role in ((prm[0], "x"), (prm[1], "y")):
+            m = _need(re.search(r"\b(u?int64_t)\s+(\w+)\s*=\s*\*\s*\(\s*\(\s*\1\s*\*\s*\)\s*%s\s*\)\s*;" % re.escape(who), b), "%s: read of one 64-bit integer from %s" % (fn, who))
+            if ty not in (None, m.group(1)):
+                raise ExtractError("%s: the two arguments are read at different types" % fn)
+            ty = m.group(1)
+            roles[m.group(2)] = role
+        t = _squash(_rename(b, roles))
+        rest = [st for st in _stmts(t) if not re.fullmatch(r"u?int64_t[xy]=\*\(\(u?int64_t\*\)\w+\);", st)]
+        ok = (len(rest) == 1 and re.fullmatch(r"return\(?(x==y|y==x)\)?\?0:\(?(\(?x<y\)?\?-1:1|\(?x>y\)?\?1:-1|\(?y>x\)?\?-1:1)\)?;", rest[0])) or \
+             (len(rest) == 2 and re.fullmatch(r"if\((x==y|y==x)\)return0;", rest[0]) and re.fullmatch(r"return(x<y\?-1:1|x>y\?1:-1);", rest[1]))
+        if not ok:
+            raise ExtractError("%s: body is not the three-way comparison `x == y ? 0 : x < y ? -1 : 1` (found %r)" % (fn, rest))
+        return "threeWay:" + ty
+    if len(prm) != 2:
+        raise ExtractError("%s: expected 2 parameters" % fn)
+    m = _need(re.search(r"\b(u?int32_t)\s*\*\s*(\w+)\s*=\s*(?:\(\s*\1\s*\*\s*\)\s*)?%s\s*;" % re.escape(prm[0]), b), "%s: the payload read as 32-bit words" % fn)
+    t = _squash(_rename(b, {m.group(2): "w"}))
+    rest = [st for st in _stmts(t) if not re.fullmatch(r"u?int32_t\*w=(\(u?int32_t\*\))?\w+;", st)]
+    if not (len(rest) == 1 and re.fullmatch(r"return(w\[0\]\^w\[1\]|w\[1\]\^w\[0\]);", rest[0])):
+        raise ExtractError("%s: body is not `words[0] ^ words[1]` (found %r)" % (fn, rest))
+    return "xorWords:int32_t"
+
+
+def abstract_facts(tree):
+    value = csrc.strip_comments(csrc.read(tree, "src/core/value.c"))
+    f = {"compareAbstractSteps": compare_abstract_steps(value)}
+    # ---- janet_hash: hook when not NULL, else fall through to the pointer hash
+    b = _squash(csrc.func_body(value, "janet_hash"))
+    m = _need(re.search(r"caseJANET_ABSTRACT:\{JanetAbstract(\w+)=janet_unwrap_abstract\(x\);constJanetAbstractType\*(\w+)=janet_abstract_type\(\1\);"
+                        r"if\((NULL!=\2->hash|\2->hash)\)\{hash=\2->hash\(\1,janet_abstract_size\(\1\)\);break;\}\}default:", b),
+              "janet_hash: JANET_ABSTRACT case (hash hook when not NULL, else fallthrough to the pointer hash)")
+    f["hashAbstractHookElsePointer"] = True
+    # ---- janet_equals / janet_compare: dispatch to janet_compare_abstract
+    call = r"janet_compare_abstract\(janet_unwrap_abstract\(x\),janet_unwrap_abstract\(y\)\)"
+    be = _squash(csrc.func_body(value, "janet_equals"))
+    _need(re.search(r"caseJANET_ABSTRACT:\{?if\(" + call + r"(!=0)?\)\{?return0;\}?break;", be), "janet_equals: JANET_ABSTRACT case")
+    f["equalsAbstractViaCompare"] = True
+    bc = _squash(csrc.func_body(value, "janet_compare"))
+    _need(re.search(r"caseJANET_ABSTRACT:\{int(\w+)=" + call + r";if\(\1(!=0)?\)\{?return\1;\}?break;\}", bc), "janet_compare: JANET_ABSTRACT case")
+    f["compareAbstractDiffReturned"] = True
+    # ---- pointer short-cuts of janet_equals (and their absence in janet_compare)
+    def shortcut(body, unwrap):
+        m2 = re.search(r"const\w+\*(\w+)=%s\(x\);const\w+\*(\w+)=%s\(y\);" % (unwrap, unwrap), body)
+        if not m2:
+            raise ExtractError("%s(x) / (y) not found" % unwrap)
+        p, q = m2.group(1), m2.group(2)
+        return bool(re.match(r"if\((%s==%s|%s==%s)\)\{?break;\}?" % (p, q, q, p), body[m2.end():]))
+    f["equalsTuplePtrShortcut"] = shortcut(be, "janet_unwrap_tuple")
+    f["equalsStructPtrShortcut"] = shortcut(be, "janet_unwrap_struct")
+    f["compareTuplePtrShortcut"] = shortcut(bc, "janet_unwrap_tuple")
+    f["compareStructPtrShortcut"] = shortcut(bc, "janet_unwrap_struct")
+    # ---- hooked types and the shapes of their hooks
+    hooked = []
+    for fn, name, cmpf, hashf in abstract_hooks(tree):
+        src = csrc.strip_comments(csrc.read(tree, "src/core/" + fn))
+        if cmpf != "NULL" and hashf == "NULL":
+            raise ExtractError("abstract type %s has a compare hook but no hash hook: equal values would hash by address" % name)
+        hooked.append((name, _hook_shape(src, cmpf, "compare"), _hook_shape(src, hashf, "hash")))
+    f["hookedTypes"] = hooked
+    return f
+
+
+def render_abs(tree):
+    f = abstract_facts(tree)
+    bl = lambda v: "true" if v else "false"
+    out = ["-- GENERATED by /verif/tools/gen from the current janet source tree (src/core/value.c, inttypes.c, every JanetAbstractType initialiser of src/core).",
+           "-- Regenerated on every check run; do not edit.", "", "namespace JanetModel.Gen.ValueAbs", "",
+           "/-- value.c janet_compare_abstract: its decisions in source order -/",
+           "abbrev compareAbstractSteps : List String := [%s]" % ", ".join('"%s"' % x for x in f["compareAbstractSteps"]), "",
+           "/-- value.c: janet_hash calls `at->hash` when it is not NULL and otherwise falls through to the pointer hash; janet_equals is",
+           "    `janet_compare_abstract(..) != 0 -> return 0`; janet_compare returns the non-zero result of janet_compare_abstract -/",
+           "abbrev hashAbstractHookElsePointer : Bool := %s" % bl(f["hashAbstractHookElsePointer"]),
+           "abbrev equalsAbstractViaCompare : Bool := %s" % bl(f["equalsAbstractViaCompare"]),
+           "abbrev compareAbstractDiffReturned : Bool := %s" % bl(f["compareAbstractDiffReturned"]), "",
+           "/-- pointer short-cuts: janet_equals leaves the tuple / struct case at once when both sides are the same object",
+           "    (`if (t1 == t2) break;`, `if (s1 == s2) break;`); janet_compare has no such test for tuples and structs -/",
+           "abbrev equalsTuplePtrShortcut : Bool := %s" % bl(f["equalsTuplePtrShortcut"]),
+           "abbrev equalsStructPtrShortcut : Bool := %s" % bl(f["equalsStructPtrShortcut"]),
+           "abbrev compareTuplePtrShortcut : Bool := %s" % bl(f["compareTuplePtrShortcut"]),
+           "abbrev compareStructPtrShortcut : Bool := %s" % bl(f["compareStructPtrShortcut"]), "",
+           "/-- every JanetAbstractType initialiser of src/core with a compare or hash hook: (type name, shape of the compare hook, shape of",
+           "    the hash hook); shapes are recognised from the hook's body: `threeWay:T` = reads one T from each argument, returns",
+           "    `x == y ? 0 : x < y ? -1 : 1`; `xorWords:int32_t` = returns words[0] ^ words[1] of the argument read as int32_t words -/",
+           "abbrev hookedTypes : List (String × String × String) := [%s]" % ", ".join('("%s", "%s", "%s")' % h for h in f["hookedTypes"]), "",
+           "end JanetModel.Gen.ValueAbs", ""]
     return "\n".join(out)
